@@ -331,7 +331,42 @@ with_selector_stubs! {
     }
 }
 
-registry!(selector_df20, selector_df21, frame_df0, frame_df4, frame_df5, frame_df11, frame_df11_ca0, frame_df16, frame_df19, frame_df24,
+// ---------------------------------------------------------------- frames LONGER than prescribed
+// The "Too much data" test sits BEHIND the complete parse, and a parse with symbolic frame bits costs ~50 min of symbolic
+// execution.  Here the frame itself is a CONCRETE valid sample (so the parse is constant-folded) and what is symbolic is
+// everything appended to it: every content of the trailing bytes, at three concrete total lengths.
+macro_rules! too_long {
+    ($name:ident, $n:expr, [$($b:expr),*], [$($len:expr),*]) => {
+        harness! {
+            #[kani::unwind(34)]
+            #[kani::stub(alloc::fmt::format, crate::stubs::fmt_stub)]
+            #[kani::stub(libm::atan2, crate::stubs::k::atan2_stub)]
+            #[kani::stub(libm::hypot, crate::stubs::k::hypot_stub)]
+            /// a valid frame of the length its downlink format prescribes is accepted; the same frame followed by ANY
+            /// extra bytes is rejected
+            fn $name(s) {
+                let mut buf: [u8; 32] = s.bytes();
+                let head: [u8; $n] = [$($b),*];
+                let mut i = 0;
+                while i < $n { buf[i] = head[i]; i += 1; }
+                let r0 = Message::try_from(&buf[..$n]);
+                vcover!(r0.is_ok());
+                vassert!(r0.is_ok(), "the sample frame is accepted at its own length");
+                core::mem::forget(r0);
+                $(
+                    let r = Message::try_from(&buf[..$len]);
+                    vassert!(r.is_err(), "accepted only at the length the downlink format prescribes");
+                    core::mem::forget(r);
+                )*
+            }
+        }
+    };
+}
+too_long!(too_long_df11, 7, [0x5d, 0x3c, 0x66, 0x14, 0xc7, 0xb8, 0xa2], [8, 14, 32]);
+too_long!(too_long_df17, 14, [0x8d, 0x40, 0x6b, 0x90, 0x20, 0x15, 0xa6, 0x78, 0xd4, 0xd2, 0x20, 0xaa, 0x4b, 0xda], [15, 32]);
+too_long!(too_long_df4, 7, [0x20, 0x00, 0x17, 0x18, 0xf1, 0xa5, 0x7b], [8, 14]);
+
+registry!(too_long_df11, too_long_df17, too_long_df4, selector_df20, selector_df21, frame_df0, frame_df4, frame_df5, frame_df11, frame_df11_ca0, frame_df16, frame_df19, frame_df24,
           frame_df17_tc00, frame_df17_tc04, frame_df17_tc07, frame_df17_tc11, frame_df17_tc19_st1, frame_df17_tc19_st0,
           frame_df17_tc28, frame_df17_tc29, frame_df17_tc31_v0, frame_df17_tc31_r2, frame_df17_tc23, frame_df18_tc11, frame_df18_tc19,
           len_cut_df00, len_cut_df01, len_cut_df04, len_cut_df05, len_cut_df11, len_cut_df14, len_cut_df16, len_cut_df17, len_cut_df18, len_cut_df19, len_cut_df20, len_cut_df21, len_cut_df24, len_cut_df31, len_df11, determinism_df11,
